@@ -564,7 +564,7 @@ class Files(Part):
 
     def describe(self, tier):
         return ('a 3-bus json case: every prefix cut at a token boundary ("," ":" "{" "}" "[" "]"), the empty file, the full file; '
-                'xlsx truncated at 8 lengths; wrong extension; missing file; through andes.load + routines and the CLI entry point')
+                'xlsx truncated at 8 lengths; wrong extension; missing file; an intact and a missing file on one command line; through andes.load + routines and the CLI entry point')
 
     def source(self):
         import andes
@@ -588,6 +588,8 @@ class Files(Part):
         out += [dict(kind='json_prefix', cut=0), dict(kind='json_full', cut=len(text))]
         out += [dict(kind='xlsx_trunc', frac=f) for f in (0.0, 0.1, 0.3, 0.5, 0.7, 0.9, 0.99, 1.0)]
         out += [dict(kind='wrong_ext'), dict(kind='missing')]
+        # two inputs on one command line, one of them missing (the other intact): a missing input must show in the exit code
+        out += [dict(kind='good+missing', order=0), dict(kind='good+missing', order=1)]
         return out
 
     def init_worker(self):
@@ -614,6 +616,21 @@ class Files(Part):
         else:
             path = os.path.join(self.tmp, 'does-not-exist.json')
         log = []
+        if kind == 'good+missing':
+            good = os.path.join(self.tmp, f'g-{os.getpid()}.json')
+            open(good, 'w').write(self.text)
+            names = [good, path] if case['order'] == 0 else [path, good]
+            try:
+                code = andes.run(names, cli=True, no_output=True, default_config=True, verbose=50)
+                log.append(f'cli exit {code}')
+                if code == 0:
+                    out.bad('cli_exit_zero_with_a_missing_input', f'andes.run([intact, missing][order {case["order"]}], cli=True) '
+                            f'returned exit code 0')
+            except (Exception, SystemExit) as e:
+                log.append(f'cli raised {type(e).__name__}')
+            os.remove(good)
+            out.obs = dict(log=log)
+            return out
         for entry in ('api', 'cli'):
             try:
                 if entry == 'api':
